@@ -37,6 +37,23 @@ pub fn verif_dir() -> PathBuf {
 thread_local! {
 	static LAST_PANIC: RefCell<Option<String>> = const { RefCell::new(None) };
 	static QUIET: Cell<bool> = const { Cell::new(false) };
+	/// Describes the case being evaluated (used by the panic hook to leave a
+	/// record in case the process aborts while unwinding).
+	static INFLIGHT: Cell<Option<(*const (), fn(*const ()) -> J)>> = const { Cell::new(None) };
+	static INFLIGHT_FILE: RefCell<Option<PathBuf>> = const { RefCell::new(None) };
+}
+
+static INFLIGHT_COUNT: std::sync::atomic::AtomicUsize = std::sync::atomic::AtomicUsize::new(0);
+static CURRENT: std::sync::Mutex<(String, String)> = std::sync::Mutex::new((String::new(), String::new()));
+
+pub fn set_current(prop: &str, family: &str) {
+	if let Ok(mut c) = CURRENT.lock() {
+		*c = (prop.to_string(), family.to_string());
+	}
+}
+
+fn inflight_prefix(pid: u32) -> String {
+	format!(".inflight-{pid}-")
 }
 
 /// Installs a panic hook that records the message and location in a
@@ -57,6 +74,20 @@ pub fn install_panic_hook() {
 			.unwrap_or_default();
 		let quiet = QUIET.with(|q| q.get());
 		LAST_PANIC.with(|p| *p.borrow_mut() = Some(format!("panic at {loc}: {msg}")));
+		// leave a record of the case in flight: if unwinding aborts the process
+		// (panic inside a destructor), the parent still learns which case it was
+		if let Some((ptr, call)) = INFLIGHT.with(|i| i.get()) {
+			let n = INFLIGHT_COUNT.fetch_add(1, std::sync::atomic::Ordering::Relaxed);
+			if n < 64 && INFLIGHT_FILE.with(|f| f.borrow().is_none()) {
+				let case = call(ptr);
+				let (prop, family) = CURRENT.lock().map(|c| c.clone()).unwrap_or_default();
+				let body = json!({"property": prop, "family": family, "case": case, "message": format!("panic at {loc}: {msg} (the process then aborted)")});
+				let path = verif_dir().join("replays").join(format!("{}{n}.json", inflight_prefix(std::process::id())));
+				if std::fs::write(&path, serde_json::to_string_pretty(&body).unwrap_or_default()).is_ok() {
+					INFLIGHT_FILE.with(|f| *f.borrow_mut() = Some(path));
+				}
+			}
+		}
 		if !quiet {
 			default(info)
 		}
@@ -74,6 +105,42 @@ pub fn guarded<T>(f: impl FnOnce() -> T) -> Result<T, String> {
 			.with(|p| p.borrow_mut().take())
 			.unwrap_or_else(|| "panic (no message)".into())),
 	}
+}
+
+/// Like `guarded`, additionally registering a description of the case so that
+/// a panic-while-unwinding abort can still be attributed to it.
+pub fn guarded_with<T, D: Fn() -> J>(desc: &D, f: impl FnOnce() -> T) -> Result<T, String> {
+	fn call<D: Fn() -> J>(p: *const ()) -> J {
+		unsafe { (*(p as *const D))() }
+	}
+	let prev = INFLIGHT.with(|i| i.replace(Some((desc as *const D as *const (), call::<D>))));
+	let r = guarded(f);
+	INFLIGHT.with(|i| i.set(prev));
+	// the panic (if any) was caught: the record is not needed
+	if let Some(p) = INFLIGHT_FILE.with(|f| f.borrow_mut().take()) {
+		let _ = std::fs::remove_file(p);
+	}
+	r
+}
+
+/// Records left behind by a worker that aborted: (path, parsed content).
+pub fn collect_inflight(pid: u32) -> Vec<(PathBuf, J)> {
+	let dir = verif_dir().join("replays");
+	let prefix = inflight_prefix(pid);
+	let mut out = vec![];
+	if let Ok(rd) = std::fs::read_dir(&dir) {
+		for e in rd.flatten() {
+			let name = e.file_name().to_string_lossy().to_string();
+			if name.starts_with(&prefix) {
+				if let Ok(t) = std::fs::read_to_string(e.path()) {
+					if let Ok(j) = serde_json::from_str::<J>(&t) {
+						out.push((e.path(), j));
+					}
+				}
+			}
+		}
+	}
+	out
 }
 
 // ---------------------------------------------------------------------------
@@ -384,6 +451,7 @@ impl Ctx {
 	}
 
 	pub fn begin_family(&self, name: &str) {
+		set_current(self.prop, name);
 		write_progress(self.prop, &format!("in:{name}"));
 	}
 
@@ -448,11 +516,18 @@ impl Ctx {
 			);
 		}
 		let mut seen = HashSet::new();
+		let mut printed = 0;
 		for (path, f) in &violations {
 			if seen.insert(path.clone()) {
-				println!("VIOLATION property={} replay={}", self.prop, path.display());
-				eprintln!("  family={} : {}", f.family, truncate(&f.message, 600));
+				printed += 1;
+				if printed <= 8 {
+					println!("VIOLATION property={} replay={}", self.prop, path.display());
+					eprintln!("  family={} : {}", f.family, truncate(&f.message, 600));
+				}
 			}
+		}
+		if printed > 8 {
+			eprintln!("  ... and {} more violating cases (replay files written under {})", printed - 8, replay_dir.display());
 		}
 
 		let evaluations: u64 = self.fams.iter().map(|f| f.evaluations).sum();
@@ -636,7 +711,7 @@ where
 			let fcell = RefCell::new(&mut f);
 			let result = runner.run(&strategy, |v| {
 				let counting = !failed.get();
-				let out = match guarded(|| check(&v)) {
+				let out = match guarded_with(&|| encode(&v), || check(&v)) {
 					Ok(o) => o,
 					Err(p) => Outcome::fail(p),
 				};
